@@ -401,3 +401,33 @@ META = {
         "memory-order adequacy of the acquire/release/relaxed accesses to the count (A-SC)",
     ],
 }
+
+
+# ---- runtime.cpp life-cycle hand-shake (written by main; extends the slice) -------------------------------------------
+from vx import census as _census
+RTCPP = "libs/pika/runtime/src/runtime.cpp"
+RT_RULES = [
+    Sub(r"pika::runtime_state::(\w+)", r"RS_\1", None),
+    Sub(r"\bstate_\.load\(\)", "atomic_load_state(self)", None),
+    Call(r"\bPIKA_THROW_EXCEPTION", "{ vx_throw_pika(0); return; }", None, stmt=True),
+    Sub(r"\bthread_manager_->(wait|suspend|resume)\(\);", r"tm_\1();", None),
+    Sub(r"\bset_state\(", "set_state(self, ", None),
+    Sub(r"\bwait_finalize\(\);", "wait_finalize(self);", None),
+    Sub(r"\bwait_condition_\.notify_all\(\);", "stdcv_notify_all();", None),
+    Sub(r"\bwait_condition_\.wait\((\w+), \[&\] \{ return (\w+); \}\);", r"STDCV_WAIT_UNTIL(\1, self->\2)", None),
+    Guard(r"std::unique_lock<std::mutex> (\w+)\(mtx_\);", r"struct ulock \1 = ulock_make(self->mtx_p);", r"ulock_dtor(&\1);", None),
+    Members(["stop_called_", "stop_done_", "result_"], optional=["stop_called_", "stop_done_", "result_"]),
+]
+for (nm, loc, fn, d) in [("rt.notify_finalize", r"void runtime::notify_finalize\(\)", "notify_finalize", "U_NOTIFY_FINALIZE"),
+                         ("rt.wait_finalize", r"void runtime::wait_finalize\(\)", "wait_finalize", "U_WAIT_FINALIZE"),
+                         ("rt.wait", r"int runtime::wait\(\)", "rt_wait", "U_WAIT"),
+                         ("rt.suspend", r"void runtime::suspend\(\)", "rt_suspend", "U_SUSPEND"),
+                         ("rt.resume", r"void runtime::resume\(\)", "rt_resume", "U_RESUME")]:
+    UNITS.append(Unit(nm, "runtime.c", defines=[d], enforce=fn, lifts={"body": Lift(RTCPP, loc, rules=RT_RULES)},
+                      loop_contracts=(d == "U_WAIT_FINALIZE"),
+                      funcs=[RTCPP + ": pika::runtime::" + loc.split("::")[1].split("\\")[0]], min_obligations=5))
+STATIC = list(globals().get("STATIC", [])) + [
+    _census.enum("runtime_state", "libs/pika/threading_base/include/pika/threading_base/scheduler_state.hpp", "runtime_state",
+                 {"invalid": -1, "initialized": 0, "running": 5, "suspended": 6, "pre_sleep": 7, "sleeping": 8, "stopping": 11, "terminating": 12, "stopped": 13}),
+    _census.sites("runtime stop_done_ writes", [RTCPP], r"\bstop_done_\s*=(?!=)", 1, "notify_finalize only; constructors initialise it to false"),
+]
